@@ -72,6 +72,12 @@ class TaskScheduler(object):
             if task.is_computed():
                 break
             self._continue_with_batch()
+        if not self._tasks:
+            # The outermost wait is over. Batches that are still scheduled belong to tasks that
+            # will never ask for them again (e.g. tasks that failed while suspended); don't
+            # flush them as part of the next computation. (An enclosing wait re-schedules the
+            # batches it still needs on its next pass.)
+            self._batches.clear()
 
     def _execute(self, root_task):
         """Implements task execution loop.
